@@ -386,7 +386,8 @@ def run_triangle(cfg):
             continue
         ob += 1
         if res[0] != 'ok':
-            viol.append(dict(kind='triangle', cls=cls, width=width, analytic=analytic, what=res[1], l=0.0, m=0.0, r=0.0, k=0))
+            mm = ctx.model()
+            viol.append(dict(kind='triangle', cls=cls, width=width, analytic=analytic, what=res[1], l=_fval(mm, 'l'), m=_fval(mm, 'm'), r=_fval(mm, 'r'), k=0))
             continue
         s = ctx.solver
         s.push()
